@@ -385,7 +385,7 @@ def run(ck):
                     pats = [(ki + di + n + seed) % 9, (ki + 2 * di + 4 * n + 3 * seed + 5) % 9]
                 else:
                     pats = range(9)
-                for pat in pats:
+                for pat in sorted(set(pats)):
                     cases.append({"spec": spec, "n": n, "d": d, "design": des, "pattern": pat, "seed": seed})
     ck.run_cases("gp", cases, chunk=1)
     ck.rule = (
